@@ -137,13 +137,13 @@ func Gen(seed uint64, faulty bool) *Workload {
 	switch {
 	case f < 0.12 && n >= 3:
 		w.Family = "divergent"
-	case f < 0.20 && n >= 3:
+	case f < 0.26 && n >= 3:
 		w.Family = "conflict"
 	}
 
 	// which files are remote: a down-closed set (a remote file can only import remote files)
 	remote := make([]bool, n)
-	if r.Chance(0.35) && n >= 2 {
+	if r.Chance(0.45) && n >= 2 {
 		start := r.Range(1, n-1)
 		var mark func(i int)
 		mark = func(i int) {
@@ -162,7 +162,7 @@ func Gen(seed uint64, faulty bool) *Workload {
 			}
 		}
 	}
-	w.RemoteV = []string{"v1", "master", "main", "develop", "v1", "feature/x", "release/1.0"}[r.Intn(7)]
+	w.RemoteV = []string{"v1", "master", "main", "develop", "feature/x", "release/1.0"}[r.Intn(6)]
 	if w.Family == "divergent" {
 		w.RemoteV = []string{"master", "main", "develop"}[r.Intn(3)]
 	}
@@ -429,12 +429,20 @@ func makeDivergent(r *core.Rand, w *Workload) bool {
 		cands = []int{t}
 	}
 	t := cands[r.Intn(len(cands))]
+	if w.Family == "conflict" {
+		for _, c := range cands {
+			if w.Files[c].Remote && r.Chance(0.7) {
+				t = c
+				break
+			}
+		}
+	}
 	rs := in[t]
 	a := rs[r.Intn(len(rs))]
 	im := &w.Files[a.file].Imports[a.idx]
 	tf := w.Files[t]
 	if w.Family == "conflict" {
-		if tf.Remote && r.Chance(0.5) {
+		if tf.Remote && r.Chance(0.75) {
 			// a different, non-alias version
 			im.Spell = strings.Split(im.Spell, "@")[0]
 			if !strings.HasPrefix(im.Spell, "//") {
